@@ -3,3 +3,4 @@ import MtailVerif.Props.C12
 #print axioms MtailVerif.C12.skeletons_named
 #print axioms MtailVerif.C12.export_releases
 #print axioms MtailVerif.ExportLocks.safe_sound
+#print axioms MtailVerif.C12.json_export_releases
